@@ -137,6 +137,11 @@ def build(log=None):
         status.make_failed_files = sorted(set(re.findall(r'File "\./([^"]+\.v)", line \d+, characters [^\n]*\n(?:[^\n]*\n)*?Error', out)))
         if not status.make_ok and not status.make_failed_files:
             status.make_failed_files = sorted(set(re.findall(r'\*\*\* \[[^\]]*: ([^\]]+\.vo)\] Error', out)))
+        for rel in status.make_failed_files:
+            # a stale .vo of a file that no longer compiles must not be taken for a proof
+            vo = os.path.join(paths.COQ, rel[:-2] + '.vo') if rel.endswith('.v') else os.path.join(paths.COQ, rel)
+            if os.path.exists(vo):
+                os.unlink(vo)
         status.wall['make'] = round(time.time() - t0, 2)
         # extraction + driver
         t0 = time.time()
